@@ -135,9 +135,12 @@ structure LoopInv (pre : List P) (t : List Entry) (zh : Option Nat) : Prop where
   zero_some : ∀ z : Nat, zh = some z → ∃ e : Entry, t[z]? = some e ∧ e.hash = 0
   zero_none : zh = none → t.length = pre.length
   len : t.length ≤ pre.length
+  zero_unique : ∀ (k : Nat) (e : Entry), t[k]? = some e → e.hash = 0 → zh = some k
+  zero_last : ∀ z : Nat, zh = some z → ∃ e : Entry, t[z]? = some e ∧
+    ∀ (j : Nat) (p : P), pre[j]? = some p → p.hash = 0 → j ≤ e.index
 
 theorem LoopInv.init : LoopInv [] [] none :=
-  ⟨by simp, by simp, by simp, by simp, by simp⟩
+  ⟨by simp, by simp, by simp, by simp, by simp, by simp, by simp⟩
 
 theorem getElem?_snoc_cases {α} (l : List α) (a : α) (k : Nat) (x : α)
     (h : (l ++ [a])[k]? = some x) : (k < l.length ∧ l[k]? = some x) ∨ (k = l.length ∧ x = a) := by
@@ -182,7 +185,7 @@ theorem rebuildLoop_spec : ∀ (ps pre : List P) (t : List Entry) (zh : Option N
       | none =>
         have htl : t.length = pre.length := h.zero_none rfl
         refine ⟨t ++ [⟨p.hash, pre.length⟩], some pre.length, ?_, ?_⟩
-        · refine ⟨?_, ?_, ?_, by simp, by simp; omega⟩
+        · refine ⟨?_, ?_, ?_, by simp, by simp; omega, ?_, ?_⟩
           · intro k e hk
             rcases getElem?_snoc_cases _ _ _ _ hk with ⟨_, hk'⟩ | ⟨_, rfl⟩
             · obtain ⟨q, hq, hh⟩ := h.sound k e hk'
@@ -196,6 +199,16 @@ theorem rebuildLoop_spec : ∀ (ps pre : List P) (t : List Entry) (zh : Option N
           · intro z hzz
             simp at hzz; subst hzz
             exact ⟨_, by rw [← htl]; exact getElem?_snoc_last _ _, hz⟩
+          · intro k e hk he0
+            rcases getElem?_snoc_cases _ _ _ _ hk with ⟨_, hk'⟩ | ⟨hkl, _⟩
+            · have := h.zero_unique k e hk' he0; simp at this
+            · rw [hkl, htl]
+          · intro z hzz
+            simp at hzz; subst hzz
+            refine ⟨⟨p.hash, pre.length⟩, by rw [← htl]; exact getElem?_snoc_last _ _, ?_⟩
+            intro j q hj _
+            have := (List.getElem?_eq_some_iff.mp hj).1
+            simp at this; simp; omega
         · simp only [rebuildLoop, if_pos hz, tblWrite]
           rw [← htl, if_neg (Nat.lt_irrefl _), if_pos rfl]
           simp
@@ -203,7 +216,7 @@ theorem rebuildLoop_spec : ∀ (ps pre : List P) (t : List Entry) (zh : Option N
         obtain ⟨e, he, he0⟩ := h.zero_some z rfl
         have hzl : z < t.length := (List.getElem?_eq_some_iff.mp he).1
         refine ⟨t.set z ⟨e.hash, pre.length⟩, some z, ?_, ?_⟩
-        · refine ⟨?_, ?_, ?_, by simp, by simp; have := h.len; omega⟩
+        · refine ⟨?_, ?_, ?_, by simp, by simp; have := h.len; omega, ?_, ?_⟩
           · intro k e' hk
             rw [List.getElem?_set] at hk
             by_cases hzk : z = k
@@ -230,9 +243,21 @@ theorem rebuildLoop_spec : ∀ (ps pre : List P) (t : List Entry) (zh : Option N
           · intro z' hzz
             simp at hzz; subst hzz
             exact ⟨⟨e.hash, pre.length⟩, by rw [List.getElem?_set, if_pos rfl, if_pos hzl], he0⟩
+          · intro k e' hk he0'
+            rw [List.getElem?_set] at hk
+            by_cases hzk : z = k
+            · rw [hzk]
+            · rw [if_neg hzk] at hk
+              exact h.zero_unique k e' hk he0'
+          · intro z' hzz
+            simp at hzz; subst hzz
+            refine ⟨⟨e.hash, pre.length⟩, by rw [List.getElem?_set, if_pos rfl, if_pos hzl], ?_⟩
+            intro j q hj _
+            have := (List.getElem?_eq_some_iff.mp hj).1
+            simp at this; simp; omega
         · simp only [rebuildLoop, if_pos hz, he]
     · refine ⟨t ++ [⟨p.hash, pre.length⟩], zh, ?_, ?_⟩
-      · refine ⟨?_, ?_, ?_, ?_, by simp; have := h.len; omega⟩
+      · refine ⟨?_, ?_, ?_, ?_, by simp; have := h.len; omega, ?_, ?_⟩
         · intro k e hk
           rcases getElem?_snoc_cases _ _ _ _ hk with ⟨_, hk'⟩ | ⟨_, rfl⟩
           · obtain ⟨q, hq, hh⟩ := h.sound k e hk'
@@ -247,6 +272,17 @@ theorem rebuildLoop_spec : ∀ (ps pre : List P) (t : List Entry) (zh : Option N
           obtain ⟨e, he, he0⟩ := h.zero_some z hzz
           exact ⟨e, getElem?_snoc_left _ _ _ _ he, he0⟩
         · intro hn; simp; exact h.zero_none hn
+        · intro k e hk he0
+          rcases getElem?_snoc_cases _ _ _ _ hk with ⟨_, hk'⟩ | ⟨_, rfl⟩
+          · exact h.zero_unique k e hk' he0
+          · exact absurd he0 hz
+        · intro z hzz
+          obtain ⟨e, he, hlast⟩ := h.zero_last z hzz
+          refine ⟨e, getElem?_snoc_left _ _ _ _ he, ?_⟩
+          intro j q hj hq0
+          rcases getElem?_snoc_cases _ _ _ _ hj with ⟨_, hj'⟩ | ⟨_, rfl⟩
+          · exact hlast j q hj' hq0
+          · exact absurd hq0 hz
       · simp only [rebuildLoop, if_neg hz]
 
 /-! ### lookup by hash -/
@@ -259,19 +295,26 @@ structure Fresh (c : State) (t : List Entry) : Prop where
   sorted : SortedH t
   sound : ∀ e ∈ t, ∃ p : P, (c.mem.take c.N)[e.index]? = some p ∧ p.hash = e.hash
   complete : ∀ (j : Nat) (p : P), (c.mem.take c.N)[j]? = some p → ∃ e ∈ t, e.hash = p.hash
+  zero_last : ∀ e ∈ t, e.hash = 0 → ∀ (j : Nat) (p : P), (c.mem.take c.N)[j]? = some p → p.hash = 0 → j ≤ e.index
 
 theorem rebuild_spec (srt : Sorter) (hv : srt.Valid) (c : State) :
     ∃ t, rebuild srt c = some { c with lookup := t } ∧ Fresh c t := by
   obtain ⟨t', zh', e1, inv⟩ := rebuildLoop_spec (c.mem.take c.N) [] [] none LoopInv.init
   simp only [List.length_nil, List.nil_append] at e1 inv
   obtain ⟨hp, hs⟩ := hv t'
-  refine ⟨srt.f t', by simp [rebuild, e1], hs, ?_, ?_⟩
+  refine ⟨srt.f t', by simp [rebuild, e1], hs, ?_, ?_, ?_⟩
   · intro e he
     obtain ⟨k, hk⟩ := List.getElem?_of_mem (hp.mem_iff.mp he)
     exact inv.sound k e hk
   · intro j p hj
     obtain ⟨k, e, hk, hh⟩ := inv.complete j p hj
     exact ⟨e, hp.mem_iff.mpr (List.mem_of_getElem? hk), hh⟩
+  · intro e he he0 j p hj hp0
+    obtain ⟨k, hk⟩ := List.getElem?_of_mem (hp.mem_iff.mp he)
+    have hz := inv.zero_unique k e hk he0
+    obtain ⟨e', he', hl⟩ := inv.zero_last k hz
+    rw [hk] at he'; simp at he'; subst he'
+    exact hl j p hj hp0
 
 theorem search_no_fault (t : List Entry) (h N : Nat) : search t h N ≠ .fault :=
   bsearch_no_fault t h N 0 _ (by omega) (by omega)
@@ -320,6 +363,21 @@ theorem lookupAgain_spec (srt : Sorter) (hv : srt.Valid) (c : State) (h : Nat) :
     obtain ⟨j, hj⟩ := this
     unfold search at hs
     rw [hs] at hj; simp at hj
+
+/-- after a rebuild, hash 0 denotes the LAST particle with hash 0 -/
+theorem lookupAgain_zero_last (srt : Sorter) (hv : srt.Valid) (c : State) (i : Nat)
+    (hf : (lookupAgain srt c 0).2 = Out.found i) (j : Nat) (p : P) (hj : j < c.N)
+    (hp : c.mem[j]? = some p) (hp0 : p.hash = 0) : j ≤ i := by
+  obtain ⟨t, e1, fr⟩ := rebuild_spec srt hv c
+  simp only [lookupAgain, e1] at hf
+  cases hs : search t 0 c.N with
+  | fault => rw [hs] at hf; simp at hf
+  | miss => rw [hs] at hf; simp at hf
+  | hit i' =>
+    rw [hs] at hf; simp at hf; subst hf
+    obtain ⟨e, hm, hh, hi, _⟩ := bsearch_hit _ _ _ _ _ _ hs
+    have := fr.zero_last e hm hh j p (by rw [List.getElem?_take, if_pos hj]; exact hp) hp0
+    omega
 
 theorem particleByHash_spec (srt : Sorter) (hv : srt.Valid) (c : State) (hN : c.N ≤ c.mem.length) (h : Nat) :
     ((particleByHash srt c h).1 = c ∨ ∃ t, (particleByHash srt c h).1 = { c with lookup := t }) ∧
